@@ -63,7 +63,9 @@ func oracleC01() *Result {
 		k, nrand, nmut = 3, 40000, 40
 	}
 	var tasks []Task
-	add := func(b []byte, tag string) { tasks = append(tasks, Task{Oracle: "C01", Cfg: versions, Src: b, Tag: tag}) }
+	add := func(b []byte, tag string) {
+		tasks = append(tasks, Task{Oracle: "C01", Cfg: versions, Src: b, Tag: tag})
+	}
 	for _, c := range regressionInputs("C01") {
 		add(c, "regression")
 	}
